@@ -1,4 +1,4 @@
-"""C13 - loggers are goroutine-safe and lose nothing (specs/logs/LogSink.tla, LogSinkTrace.tla)."""
+"""C13 - loggers are goroutine-safe and lose nothing (specs/logs/LogSink.tla, LogSinkTrace.tla, LogComposite.tla, LogCompositeTrace.tla)."""
 import os
 import re
 
@@ -30,6 +30,34 @@ def run(chk, scratch):
     chk.add_tlc("LogSink with appends under a shared lock (must violate ExactlyOnceIntact)", r)
     if r.violated != "ExactlyOnceIntact":
         raise vlib.Inconclusive("sensitivity self-test failed: LogSink_shared.cfg reported %s" % r.violated)
+    # 1b. membership of composite loggers built from one caller-owned member list: every behaviour of LogComposite.tla is
+    #     replayed on NewCombinedLoggers / NewMultipleLoggers; sensitivity: composites that keep the caller's slice
+    rc = vlib.run_tlc(scratch, [SPEC], "LogComposite", "LogComposite.cfg", workers=1, timeout=600, deadlock=False, fast=True, keep=(20000 if thorough else 1500))
+    vlib.tlc_must_pass(rc, "LogComposite")
+    if rc.violated:
+        raise vlib.Inconclusive("LogComposite.tla violates %s: the specification is wrong" % rc.violated)
+    chk.add_tlc("LogComposite: two composites over one caller-owned list, <= 7 operations (Log / Append), every sink's content", rc)
+    rs = vlib.run_tlc(scratch, [SPEC], "LogComposite", "LogComposite_shared.cfg", workers=2, timeout=300, deadlock=False, fast=True)
+    vlib.tlc_must_pass(rs, "LogComposite_shared")
+    chk.add_tlc("LogComposite with composites sharing the caller's backing array (must violate Delivery)", rs)
+    if rs.violated != "Delivery":
+        raise vlib.Inconclusive("sensitivity self-test failed: LogComposite_shared.cfg reported %s" % rs.violated)
+    vh_plain = vlib.build_harness()
+    import random
+    beh = rc.behaviours
+    random.Random(chk.seed).shuffle(beh)
+    beh = beh[:(12000 if thorough else 800)]
+    inp = os.path.join(scratch, "c13-comp.ndjson")
+    vlib.write_ndjson(inp, beh)
+    ctr = os.path.join(scratch, "c13-comp-trace.ndjson")
+    p = vlib.run_vh(vh_plain, ["c13", "composites", "--in", inp, "--out", ctr, "--dir", scratch, "--seed", chk.seed], timeout=1200)
+    if p.returncode != 0:
+        raise vlib.Inconclusive("c13 composites driver failed: " + (p.stderr or "")[-1500:])
+    evc = judge(chk, scratch, ctr, "composite loggers over one caller-owned member list", spec="LogCompositeTrace",
+                describe=lambda e: "%s constructor, spare capacity %d, operations %s: expected per sink %s, found %s %s" % (
+                    e["ctor"], e["spare"], [(o["op"], o["c"], o["s"]) for o in e["ops"]], e["expected"], e["got"], e["problem"]), spec_dir=SPEC)
+    chk.nontrivial += len(evc)
+    chk.cov["composite_membership_behaviours_replayed"] = len(evc)
     # 2. every logger kind in its own process of the race-enabled harness
     vh = vlib.build_harness(race=True)
     kinds_file = os.path.join(scratch, "c13-kinds.ndjson")
